@@ -1,0 +1,172 @@
+//! Verification hook (feature `verif_hooks`): dumps the leaves and the final graph.
+use std::cell::RefCell;
+use std::fmt::Write;
+
+use regex_syntax::hir::{Class, Hir, HirKind, Look};
+use regex_syntax::utf8::Utf8Sequences;
+
+use crate::graph::{Graph, GraphError};
+use crate::leaf::VariantKind;
+
+thread_local! {
+    static DUMP: RefCell<Option<String>> = const { RefCell::new(None) };
+}
+
+pub fn take() -> Option<String> {
+    DUMP.with(|d| d.borrow_mut().take())
+}
+
+fn sid(s: crate::graph::State) -> usize {
+    s.snake_case()[5..].parse().unwrap()
+}
+
+fn look_code(l: &Look) -> u32 {
+    l.as_repr() as u32
+}
+
+fn hir(out: &mut String, h: &Hir) {
+    match h.kind() {
+        HirKind::Empty => out.push_str("0 "),
+        HirKind::Literal(lit) => {
+            write!(out, "1 {} ", lit.0.len()).unwrap();
+            for b in lit.0.iter() {
+                write!(out, "{} ", b).unwrap();
+            }
+        }
+        HirKind::Class(Class::Unicode(cls)) => {
+            let ranges = cls.ranges();
+            write!(out, "2 0 {} ", ranges.len()).unwrap();
+            for r in ranges {
+                write!(out, "{} {} ", r.start() as u32, r.end() as u32).unwrap();
+            }
+            let mut seqs = Vec::new();
+            for r in ranges {
+                for s in Utf8Sequences::new(r.start(), r.end()) {
+                    seqs.push(s.as_slice().iter().map(|u| (u.start, u.end)).collect::<Vec<_>>());
+                }
+            }
+            write!(out, "{} ", seqs.len()).unwrap();
+            for s in seqs {
+                write!(out, "{} ", s.len()).unwrap();
+                for (a, b) in s {
+                    write!(out, "{} {} ", a, b).unwrap();
+                }
+            }
+        }
+        HirKind::Class(Class::Bytes(cls)) => {
+            let ranges = cls.ranges();
+            write!(out, "2 1 {} ", ranges.len()).unwrap();
+            for r in ranges {
+                write!(out, "{} {} ", r.start(), r.end()).unwrap();
+            }
+            write!(out, "{} ", ranges.len()).unwrap();
+            for r in ranges {
+                write!(out, "1 {} {} ", r.start(), r.end()).unwrap();
+            }
+        }
+        HirKind::Look(l) => write!(out, "3 {} ", look_code(l)).unwrap(),
+        HirKind::Repetition(rep) => {
+            write!(
+                out,
+                "4 {} {} {} {} ",
+                rep.min,
+                rep.max.is_some() as u32,
+                rep.max.unwrap_or(0),
+                rep.greedy as u32
+            )
+            .unwrap();
+            hir(out, &rep.sub);
+        }
+        HirKind::Capture(cap) => {
+            out.push_str("5 ");
+            hir(out, &cap.sub);
+        }
+        HirKind::Concat(hs) => {
+            write!(out, "6 {} ", hs.len()).unwrap();
+            for h in hs {
+                hir(out, h);
+            }
+        }
+        HirKind::Alternation(hs) => {
+            write!(out, "7 {} ", hs.len()).unwrap();
+            for h in hs {
+                hir(out, h);
+            }
+        }
+    }
+}
+
+pub fn record(graph: &Graph, utf8: bool) {
+    let mut out = String::new();
+    let nstates = graph.iter_states().count();
+    writeln!(
+        out,
+        "DEF {} {} {} {}",
+        utf8 as u32,
+        graph.leaves().len(),
+        nstates,
+        sid(graph.root())
+    )
+    .unwrap();
+    for (i, leaf) in graph.leaves().iter().enumerate() {
+        let (kind, name) = match &leaf.kind {
+            VariantKind::Skip => (0, String::from("_")),
+            VariantKind::Unit(id) => (1, id.to_string()),
+            VariantKind::Value(id, _) => (2, id.to_string()),
+        };
+        writeln!(
+            out,
+            "LEAF {} {} {} {} {}",
+            i,
+            leaf.priority,
+            kind,
+            leaf.callback.is_some() as u32,
+            name
+        )
+        .unwrap();
+        let mut h = String::new();
+        hir(&mut h, leaf.pattern.hir());
+        writeln!(out, "HIR {} {}", i, h.trim_end()).unwrap();
+        let mut src = String::new();
+        for b in leaf.pattern.source().bytes() {
+            write!(src, "{:02x}", b).unwrap();
+        }
+        writeln!(out, "SRC {} {}", i, src).unwrap();
+    }
+    for state in graph.iter_states() {
+        let sd = graph.get_state(state);
+        let opt = |o: Option<crate::leaf::LeafId>| o.map(|l| l.0 as i64).unwrap_or(-1);
+        writeln!(
+            out,
+            "STATE {} {} {} {} {}",
+            sid(state),
+            opt(sd.state_type.early),
+            opt(sd.state_type.accept),
+            sd.eoi.map(|s| sid(s) as i64).unwrap_or(-1),
+            sd.normal.len()
+        )
+        .unwrap();
+        for (bc, t) in &sd.normal {
+            write!(out, "EDGE {} {} {}", sid(state), sid(*t), bc.ranges.len()).unwrap();
+            for r in &bc.ranges {
+                write!(out, " {} {}", r.start(), r.end()).unwrap();
+            }
+            out.push('\n');
+        }
+    }
+    for e in graph.errors() {
+        match e {
+            GraphError::NoUniversalStart => writeln!(out, "GERR 0").unwrap(),
+            GraphError::EmptyMatch(l) => writeln!(out, "GERR 1 {}", l.0).unwrap(),
+            GraphError::Disambiguation(ls) => {
+                write!(out, "GERR 2").unwrap();
+                for l in ls {
+                    write!(out, " {}", l.0).unwrap();
+                }
+                out.push('\n');
+            }
+        }
+    }
+    out.push_str("END\n");
+    DUMP.with(|d| *d.borrow_mut() = Some(out));
+}
